@@ -73,7 +73,7 @@ func (p *vmPay) effectKey() string {
 	}
 	var ev []string
 	for _, e := range p.events {
-		if e.Kind == "stk:r" || e.Kind == "blk:r" {
+		if e.Kind == "stk:r" || e.Kind == "blk:r" || e.Kind == "stat" {
 			continue
 		}
 		ev = append(ev, e.Kind+":"+e.Detail)
@@ -118,7 +118,8 @@ type vmModel struct {
 	Unhandled []string          // opcode constants without a case
 	Default   bool
 	Undecided []string
-	Closures  map[string]*ast.FuncLit
+	Closures  map[string]*ast.FuncLit // by role (readByte, readOp, readU16, readUvarint, readConst, push, pop, peek, set, blockGet, blockSet), else by variable name
+	Roles     map[types.Object]string // closure variable -> role
 	StackSize int64
 	BlockSize int64
 	Recv      types.Object
@@ -196,11 +197,20 @@ func (c *Ctx) vmModel() (*vmModel, error) {
 		return nil, fmt.Errorf("%s: the prologue of %s forks (%d states); expected straight-line closure definitions", c.pos(fd.Pos()), m.FuncName, len(sts))
 	}
 	st0 = sts[0]
+	m.Roles = map[types.Object]string{}
 	for obj, v := range st0.Env {
 		if v.K == vFunc && v.Lit != nil {
-			m.Closures[obj.Name()] = v.Lit
+			role := classifyClosure(c, in, st0, v.Lit)
+			if role == "" {
+				role = obj.Name()
+			}
+			m.Roles[obj] = role
+			m.Closures[role] = v.Lit
+			// functions are reported under their role, whatever the variable is called
+			c.litNames[v.Lit] = role
 		}
 	}
+	in.Undecided = nil // classification probes are not part of the verdict
 	// statements of the loop body before and after the switch
 	var pre, post []ast.Stmt
 	seen := false
@@ -550,6 +560,10 @@ func vmHooks(c *Ctx, m *vmModel) Hooks {
 				return true
 			}
 		}
+		if fp := c.fieldPath(lhs); strings.HasPrefix(fp, "<vm>.stats.") {
+			p.events = append(p.events, vmEvent{Kind: "stat", Detail: strings.TrimPrefix(fp, "<vm>.stats."), Pos: lhs.Pos()})
+			return true
+		}
 		if fp := c.fieldPath(lhs); strings.HasPrefix(fp, "<vm>.") && !strings.HasPrefix(fp, "<vm>.stats") {
 			p.events = append(p.events, vmEvent{Kind: "store", Detail: strings.TrimPrefix(fp, "<vm>."), Pos: lhs.Pos(), Val: v})
 			return true
@@ -785,4 +799,83 @@ func (a *vmArm) summary() armSummary {
 	}
 	s.OK = true
 	return s
+}
+
+// classifyClosure names a helper closure of the VM by what it does, so that
+// rules do not depend on how it is called in the source.
+func classifyClosure(c *Ctx, in *Interp, st0 *State, lit *ast.FuncLit) string {
+	st := st0.clone()
+	st.P = &vmPay{tos: linSym("tos"), pc: linSym("pc"), blk: linSym("blockTos")}
+	var args []Value
+	if lit.Type.Params != nil {
+		for _, f := range lit.Type.Params.List {
+			n := len(f.Names)
+			if n == 0 {
+				n = 1
+			}
+			for i := 0; i < n; i++ {
+				if isInt(c.typeOf(f.Type)) {
+					args = append(args, constV(constant.MakeInt64(0)))
+				} else {
+					args = append(args, Value{K: vUnknown, T: c.typeOf(f.Type)})
+				}
+			}
+		}
+	}
+	res := in.inlineLit(st, lit, args)
+	role := ""
+	for _, r := range res {
+		p := r.st.P.(*vmPay)
+		has := func(kind, detail string) bool {
+			for _, e := range p.events {
+				if e.Kind == kind && (detail == "" || e.Detail == detail) {
+					return true
+				}
+			}
+			return false
+		}
+		d, _ := p.tos.sub(linSym("tos")).isConst()
+		got := ""
+		switch {
+		case len(p.reads) == 1 && p.reads[0] == "B" && has("stat", "opsRead"):
+			got = "readOp"
+		case len(p.reads) == 1 && p.reads[0] == "B":
+			got = "readByte"
+		case len(p.reads) == 1 && p.reads[0] == "H":
+			got = "readU16"
+		case len(p.reads) == 1 && p.reads[0] == "v" && has("const", ""):
+			got = "readConst"
+		case len(p.reads) == 1 && p.reads[0] == "v":
+			got = "readUvarint"
+		case len(p.reads) == 0 && d == 1 && has("stk:w", "tos+0"):
+			got = "push"
+		case len(p.reads) == 0 && d == -1 && has("stk:r", "tos-1"):
+			got = "pop"
+		case len(p.reads) == 0 && d == 0 && has("stk:w", "tos-1"):
+			got = "set"
+		case len(p.reads) == 0 && d == 0 && has("stk:r", "tos-1") && !has("stk:w", ""):
+			got = "peek"
+		case has("mapw", ""):
+			got = "blockSet"
+		case has("blk:r", "") && !has("mapw", "") && len(p.reads) == 0 && d == 0:
+			got = "blockGet"
+		}
+		if got == "" {
+			continue
+		}
+		// push has an overflow path without the write: prefer the informative outcome
+		if role == "" || got == "push" {
+			role = got
+		}
+	}
+	return role
+}
+
+// callRole: the role of the closure called by call ("" when it is not one of the VM's helper closures).
+func (m *vmModel) callRole(c *Ctx, call *ast.CallExpr) string {
+	id, ok := stripParens(call.Fun).(*ast.Ident)
+	if !ok {
+		return ""
+	}
+	return m.Roles[c.objOf(id)]
 }
